@@ -83,4 +83,64 @@ Section Spec.
       replace (next + 1 + Z.of_nat (length (flat_map rkeys bs))) with (next + 1 + Z.of_nat (length (flat_map rkeys bs))) by reflexivity.
       repeat split; reflexivity.
   Qed.
+
+  Lemma tflat_head t mk next par pend : exists rs rest, fst (tflat mk next par pend t) = (rkey t, next, par, pend, rs) :: rest.
+  Proof.
+    destruct t as [k [|c1 bs]].
+    - cbn [FlatMachine.tflat]. destruct (ring_items mk (rlist k)) as [mk1 rs]. eexists. eexists. reflexivity.
+    - rewrite tflat_unfold. cbv zeta. destruct (ring_items mk (rlist k)) as [mk1 rs].
+      destruct (bflat k next mk1 bs). destruct (tflat m _ _ _ c1). eexists. eexists. reflexivity.
+  Qed.
+
+  (** every record but the first hangs on a record of the same list, by a tree edge, with that edge's order *)
+  Definition par_ok (t : rtree) (fl : list frec) (r : frec) : Prop :=
+    exists r', In r' fl /\ f_par r = Some (f_old r', f_new r') /\ In (f_old r', f_old r) (redges t)
+               /\ f_pend r = oord (esym (f_old r') (f_old r)).
+  Definition Tp (t : rtree) : Prop := forall mk next par pend r,
+    In r (tl (fst (tflat mk next par pend t))) -> par_ok t (fst (tflat mk next par pend t)) r.
+
+  Lemma redges_child k cs c e : In c cs -> In e (redges c) -> In e (redges (RNode k cs)).
+  Proof. intros Hc He. cbn [redges]. apply in_flat_map. exists c. split; [assumption|now right]. Qed.
+  Lemma redges_root k cs c : In c cs -> In (k, rkey c) (redges (RNode k cs)).
+  Proof. intros Hc. cbn [redges]. apply in_flat_map. exists c. split; [assumption|now left]. Qed.
+
+  Theorem tflat_parents : forall t, Tp t.
+  Proof.
+    apply rtree_ind2. intros k cs IH. unfold Tp. intros mk next par pend r Hr. destruct cs as [|c1 bs].
+    - cbn [FlatMachine.tflat] in Hr. destruct (ring_items mk (rlist k)). cbn in Hr. contradiction.
+    - rewrite tflat_unfold in *. cbv zeta in *. destruct (ring_items mk (rlist k)) as [mk1 rs].
+      set (rec0 := (k, next, par, pend, rs) : frec).
+      (* a record of a child subtree *)
+      assert (Child : forall c mk' n' fl', In c (c1 :: bs) -> Tp c ->
+                (forall x, In x (fst (tflat mk' n' (Some (k, next)) (oord (esym k (rkey c))) c)) -> In x fl') -> In rec0 fl' ->
+                forall x, In x (fst (tflat mk' n' (Some (k, next)) (oord (esym k (rkey c))) c)) ->
+                          par_ok (RNode k (c1 :: bs)) fl' x).
+      { intros c mk' n' fl' Hc Hpc Hsub H0 x Hx.
+        destruct (tflat_head c mk' n' (Some (k, next)) (oord (esym k (rkey c)))) as [rs' [rest' E]].
+        rewrite E in Hx. destruct Hx as [<-|Hx].
+        - exists rec0. split; [exact H0|split; [reflexivity|split; [now apply redges_root|reflexivity]]].
+        - assert (Hx' : In x (tl (fst (tflat mk' n' (Some (k, next)) (oord (esym k (rkey c))) c)))) by (rewrite E; exact Hx).
+          destruct (Hpc mk' n' (Some (k, next)) (oord (esym k (rkey c))) x Hx') as [r' (A1 & A2 & A3 & A4)].
+          exists r'. split; [now apply Hsub|split; [exact A2|split; [now apply (redges_child k (c1 :: bs) c)|exact A4]]]. }
+      assert (B : forall l, (forall c, In c l -> In c (c1 :: bs)) -> Forall Tp l -> forall fl',
+                  (forall x, In x (fst (bflat k next mk1 l)) -> In x fl') -> In rec0 fl' ->
+                  forall x, In x (fst (bflat k next mk1 l)) -> par_ok (RNode k (c1 :: bs)) fl' x).
+      { induction l as [|c r' IHr]; intros Hsubl Hl fl' Hsub H0 x Hx; [contradiction|]. rewrite bflat_cons in *.
+        destruct (bflat k next mk1 r') as [l2 mk2].
+        destruct (tflat mk2 (next + 1 + Z.of_nat (length (flat_map rkeys r'))) (Some (k, next)) (oord (esym k (rkey c))) c) as [l1 mk3] eqn:E1.
+        cbn [fst] in *. apply in_app_or in Hx as [Hx|Hx].
+        - apply (IHr (fun c0 H => Hsubl c0 (or_intror H)) (Forall_inv_tail Hl) fl'); [|exact H0|exact Hx].
+          intros y Hy. apply Hsub. apply in_or_app. now left.
+        - apply (Child c mk2 (next + 1 + Z.of_nat (length (flat_map rkeys r'))) fl' (Hsubl c (or_introl eq_refl)) (Forall_inv Hl)); rewrite ?E1; cbn [fst].
+          + intros y Hy. apply Hsub. apply in_or_app. now right.
+          + exact H0.
+          + exact Hx. }
+      pose proof (B bs (fun c H => or_intror H) (Forall_inv_tail IH)) as Bb.
+      destruct (bflat k next mk1 bs) as [lb mkb].
+      pose proof (Child c1 mkb (next + 1 + Z.of_nat (length (flat_map rkeys bs)))) as Cc.
+      destruct (tflat mkb (next + 1 + Z.of_nat (length (flat_map rkeys bs))) (Some (k, next)) (oord (esym k (rkey c1))) c1) as [lc mkc].
+      cbn [fst tl] in *. apply in_app_or in Hr as [Hr|Hr].
+      + apply Bb; [|now left|exact Hr]. intros y Hy. right. apply in_or_app. now left.
+      + apply (Cc _ (or_introl eq_refl) (Forall_inv IH)); [|now left|exact Hr]. intros y Hy. right. apply in_or_app. now right.
+  Qed.
 End Spec.
